@@ -171,7 +171,7 @@ def unit_stream_xcheck(seed, n):
 def jobs(tier):
     m = ("strict",)
     js = [(unit_separate, ()), (unit_pairing, ())]
-    js += [j for j in D.g_frames(m)] + D.g_pump(("strict", "warn")) + D.g_dispatch(m)[-2:]
+    js += [j for j in D.g_frames(m)] + D.g_pump(("strict", "warn")) + D.g_dispatch(m)[-2:] + D.g_dispatch(m)[:1]
     n = 200 if tier == "thorough" else 25
     js += [(unit_stream_xcheck, (SEED[0] * 7 + k, n)) for k in range(4)]
     return js
